@@ -174,3 +174,76 @@ Proof.
   intros fs root g H n Hn. unfold read in H.
   destruct (visit_closed _ _ _ _ _ H n Hn) as [[m [[] _]]|Hc]. exact Hc.
 Qed.
+
+(* ------------------------------------------------------------------ *)
+(* graph.Merge stops at the first failing Taskfile.Merge (merge_err); the model
+   used by the theorems carries the failure as a sticky flag up to the root
+   (f_err of merge_all).  On graphs all of whose vertices are reachable from the
+   root (what the reader builds) the two notions of "the load failed" coincide. *)
+
+Lemma first_err_none : forall v ops st, first_err_ops v ops st = None ->
+  (forall p, f_err (st p) = None) -> forall p, f_err (run_ops v ops st p) = None.
+Proof.
+  intros v ops. induction ops as [|o r IH]; intros st H Hst p; [exact (Hst p)|].
+  cbn [first_err_ops] in H. unfold run_ops. cbn [fold_left]. fold (run_ops v r (step v st o)).
+  destruct (f_err (tf_merge v (st (o_parent o)) (st (o_child o)) (o_inc o))) eqn:E; [discriminate|].
+  apply IH; [exact H|]. intro q. unfold step, upd. destruct (String.eqb q (o_parent o)); [exact E | exact (Hst q)].
+Qed.
+
+Lemma err_persists : forall v ops st p e, f_err (st p) = Some e -> f_err (run_ops v ops st p) = Some e.
+Proof.
+  intros v ops. induction ops as [|o r IH]; intros st p e H; [exact H|].
+  unfold run_ops. cbn [fold_left]. fold (run_ops v r (step v st o)). apply IH.
+  unfold step, upd. destruct (String.eqb p (o_parent o)) eqn:E; [|exact H].
+  apply String.eqb_eq in E. subst p. rewrite (tf_merge_sticky _ _ _ _ e H). exact H.
+Qed.
+
+Lemma first_err_some : forall v ops st e, first_err_ops v ops st = Some e ->
+  exists o, In o ops /\ f_err (run_ops v ops st (o_parent o)) <> None.
+Proof.
+  intros v ops. induction ops as [|o r IH]; intros st e H; [discriminate|].
+  cbn [first_err_ops] in H. unfold run_ops. cbn [fold_left]. fold (run_ops v r (step v st o)).
+  destruct (f_err (tf_merge v (st (o_parent o)) (st (o_child o)) (o_inc o))) as [e'|] eqn:E.
+  - exists o. split; [left; reflexivity|].
+    rewrite (err_persists v r (step v st o) (o_parent o) e'); [discriminate|].
+    unfold step, upd. rewrite String.eqb_refl. exact E.
+  - destruct (IH _ e H) as [o' [Ho' Hn]]. exists o'. split; [right; exact Ho' | exact Hn].
+Qed.
+
+Definition all_reachable (g : graph) : Prop := forall n, In n g -> reach g (root_of g) (n_path n).
+
+Lemma init_no_err : forall g, wf_graphb g = true -> forall p, In p (vertices g) -> f_err (init_state g p) = None.
+Proof.
+  intros g Hwf p Hp. unfold init_state. destruct (find_node p g) as [n|] eqn:E.
+  - destruct (wf_graph_node g p n Hwf E) as [H _]. unfold wf_file in H. apply andb_true_iff in H. destruct H as [_ H].
+    destruct (f_err (n_file n)); [discriminate | reflexivity].
+  - exfalso. clear - E Hp. unfold vertices in Hp. induction g as [|m r IH]; [contradiction|]. cbn in *.
+    destruct (String.eqb p (n_path m)) eqn:E'; [discriminate|]. destruct Hp as [Hp|Hp]; [subst; rewrite String.eqb_refl in E'; discriminate | exact (IH Hp E)].
+Qed.
+
+Theorem abort_iff_flag : forall v g pi s, valid_load v g pi s -> g <> [] -> all_reachable g ->
+  (merge_err v g pi s = None <-> f_err (merge_all v g pi s) = None).
+Proof.
+  intros v g pi s Hl Hne Hreach. pose proof (valid_load_good v g pi s Hl) as Hgo.
+  rewrite (merge_all_raw v g pi s (vl_pi _ _ _ _ Hl)), finish_err. unfold raw_state, merge_err. split.
+  - (* no failing merge: nothing carries a flag; but the root could be missing from g *)
+    intro H. destruct (first_err_ops v (ops_of v g pi s) (init_state g)) eqn:E; [discriminate|].
+    (* states outside the vertices are never touched; restrict to vertices via a stronger induction *)
+    assert (G : forall ops st, first_err_ops v ops st = None -> forall p, f_err (st p) = None -> f_err (run_ops v ops st p) = None).
+    { induction ops as [|o r IH]; intros st H0 p Hp; [exact Hp|].
+      cbn [first_err_ops] in H0. unfold run_ops. cbn [fold_left]. fold (run_ops v r (step v st o)).
+      destruct (f_err (tf_merge v (st (o_parent o)) (st (o_child o)) (o_inc o))) eqn:E0; [discriminate|].
+      apply IH; [exact H0|]. unfold step, upd. destruct (String.eqb p (o_parent o)); [exact E0 | exact Hp]. }
+    apply G; [exact E|]. apply init_no_err; [exact (vl_wf _ _ _ _ Hl)|].
+    destruct g as [|n r]; [contradiction | left; reflexivity].
+  - intro H. destruct (first_err_ops v (ops_of v g pi s) (init_state g)) as [e|] eqn:E; [|reflexivity]. exfalso.
+    destruct (first_err_some v _ _ e E) as [o [Ho Hn]].
+    (* the parent of a failing merge is a vertex, hence reachable from the root *)
+    assert (Hs : In o (sched (ops_of v g pi s) (o_parent o))) by (unfold sched; apply filter_In; split; [exact Ho | apply String.eqb_refl]).
+    destruct (go_sound g _ Hgo _ _ Hs) as [e0 [He0 _]].
+    assert (Hv : exists n, In n g /\ n_path n = o_parent o).
+    { unfold out_of in He0. destruct (find_node (o_parent o) g) as [n|] eqn:En; [|contradiction].
+      destruct (find_node_some g _ n En) as [H1 H2]. exists n. tauto. }
+    destruct Hv as [n [Hn1 Hn2]]. pose proof (Hreach n Hn1) as Hr. rewrite Hn2 in Hr.
+    destruct (reach_ok v g _ Hgo _ _ Hr H) as [Hc _]. contradiction.
+Qed.
